@@ -104,6 +104,9 @@ pub struct NoteView {
     /// spent by a stored pending transaction that is not mined (in scanned blocks) and not expired
     pub pending_spent: bool,
     pub lock: Option<(u8, u32)>,
+    /// for a note produced by a shielding transaction: the maximum height at which a transparent
+    /// input of that transaction was received
+    pub shield_input_height: Option<u32>,
 }
 
 impl Model {
@@ -194,6 +197,7 @@ impl Model {
                 spent_on_chain: spent.contains(&n.id),
                 pending_spent: pend_spent.contains(&n.id),
                 lock: self.locks.get(&key).copied(),
+                shield_input_height: None,
             });
         }
         for (p, pd) in env.pend.iter().enumerate() {
@@ -218,6 +222,7 @@ impl Model {
                     spent_on_chain: false,
                     pending_spent: false,
                     lock: self.locks.get(&key).copied(),
+                    shield_input_height: pd.utxo_spends.iter().map(|i| env.utxos[*i].height).max(),
                 });
             }
         }
